@@ -779,7 +779,11 @@ class C08(Check):
                                     note='%s (part %d/%d)' % (st.note, i + 1, nb)))
         return parts
 
-    HINT_MAY_FAIL = False
+    CRASH_BUDGET, HANG_BUDGET = 150, 30
+    bad_crashes = hangs = 0
+    gave_up = False
+    per_case_timeout = 4       # a case is a few dozen calls on buffers of at most 64 KiB (the `big` cases get 60 s)
+    HINT_MAY_FAIL = True       # BufferSpec.hint_unsat: the spec driver marks such lines `?oom`
 
     @staticmethod
     def is_big(case):
@@ -832,8 +836,64 @@ class C08(Check):
         bigs = any(self.is_big(c) for c in cases)
         env = {'ASAN_OPTIONS': 'detect_leaks=0:abort_on_error=0:allocator_may_return_null=1:max_allocation_size_mb=%d:symbolize=0'
                                % (12000 if bigs else 2048)}
-        return vf.run_exe_on_cases(self.exes['impl'], cases, os.path.join(vf.BUILD, self.id, 'run'), tag, is_impl=True,
-                                   per_case_timeout=60 if bigs else self.per_case_timeout, env=env)
+        wd = os.path.join(vf.BUILD, self.id, 'run')
+        pct = 60 if bigs else self.per_case_timeout
+        if tag.startswith('shr_') or len(cases) <= 1:
+            return vf.run_exe_on_cases(self.exes['impl'], cases, wd, tag, is_impl=True, per_case_timeout=pct, env=env)
+        # A tree on which most cases crash or hang must not cost more than a few minutes: the run goes in parts of 60
+        # cases and stops for good (all streams) after CRASH_BUDGET crashes other than the expected `! oom`, or
+        # HANG_BUDGET watchdog time-outs; what was not run is marked `! notrun` and dropped by lib/vf.py.
+        res, crashes = [], {}
+        for i in range(0, len(cases), 60):
+            part = cases[i:i + 60]
+            if self.bad_crashes >= self.CRASH_BUDGET or self.hangs >= self.HANG_BUDGET:
+                if not self.gave_up:
+                    self.gave_up = True
+                    vf.log('[C08] %d crashes / %d time-outs so far: the remaining cases are not run' % (self.bad_crashes, self.hangs))
+                res += [['! notrun'] for _ in part]
+                continue
+            r, cr = vf.run_exe_on_cases(self.exes['impl'], part, wd, tag, is_impl=True, per_case_timeout=pct, env=env)
+            res += r
+            for k, v in cr.items():
+                crashes[i + k] = v
+                if v[0] == 'timeout': self.hangs += 1
+                elif v[0] != 'oom': self.bad_crashes += 1
+        return res, crashes
+
+    def judge(self, cases, impl_obs, spec_obs):
+        """The reference's expected observations against the implementation's.  A spec line `?oom <line>` (a reserve no
+        allocation can follow) is met by <line> and also by the process stopping there with `! oom`: the property text
+        does not say which.  Reasons start with a constant tag per kind of failure (lib/vf.py groups on the first 80
+        characters) and quote at most 240 characters of a line."""
+        cut = lambda l: l if len(l) <= 240 else l[:160] + ' ... ' + l[-70:]
+        fails = []
+        for i, (s, o) in enumerate(zip(spec_obs, impl_obs)):
+            s2, o2 = [], list(o)
+            for k, l in enumerate(s):
+                if l.startswith('?oom '):
+                    if k < len(o) and o[k] == '! oom' and k == len(o) - 1:
+                        break                                   # stopped at the hint: nothing follows, nothing to compare
+                    l = l[5:]
+                s2.append(l)
+            else:
+                k = vf.first_diff(s2, o2)
+                if k is not None:
+                    exp = s2[k] if k < len(s2) else '<nothing>'
+                    got = o2[k] if k < len(o2) else '<nothing>'
+                    if got.startswith('! ') and not exp.startswith('! '):
+                        tag = '[the implementation stops with `%s` where the reference byte queue goes on]' % got.split(' | ')[0]
+                    elif exp.startswith('! '):
+                        tag = '[the reference says `%s` (no such object can exist), the implementation goes on]' % exp
+                    else:
+                        tag = ''
+                    fails.append((i, k, (tag.ljust(84, '.') + ' ' if tag else '') +
+                                  'spec expects `%s`, implementation gives `%s`' % (cut(exp), cut(got))))
+                continue
+            k = vf.first_diff(s2, o2[:len(s2)])
+            if k is not None:
+                fails.append((i, k, 'spec expects `%s`, implementation gives `%s`' % (cut(s2[k]), cut(o2[k]) if k < len(o2) else '<nothing>')))
+        fails.sort(key=lambda f: len(cases[f[0]]))
+        return fails
 
     def nontrivial(self, case, obs):
         """measured on the implementation's own internal dump: the history must reach at least two of
